@@ -63,10 +63,6 @@ def pairsOfJson (j : Json) (k : String) : List (Nat × FName) :=
 def kindStr : Kind → String
   | .py => "" | .pyc => "c" | .pyo => "o"
 
-def sepOf (j : Json) : Option Sep :=
-  let ps := ((getStrD j "pathsep" ":").toList.headD ':')
-  sepOfOption ps (getStr j "sep")
-
 def handle (op : String) (j : Json) : Option Json :=
   match op with
   | "files.load" =>
@@ -96,12 +92,11 @@ def handle (op : String) (j : Json) : Option Json :=
         ("allExpected", Json.bool v.allExpected), ("idsRight", Json.bool v.idsRight),
         ("keysRight", Json.bool v.keysRight), ("dupReported", Json.bool v.dupReported)]))
   | "files.split" =>
-    some (match sepOf j with
+    let ps := ((getStrD j "pathsep" ":").toList.headD ':')
+    some (match configLocations ps (getStr j "sep") ((getStr j "s").map nm) with
       | none => errJ "ValueError"
-      | some sep =>
-        match versionLocations sep ((getStr j "s").map nm) with
-        | none => obj [("locations", Json.null)]
-        | some l => obj [("locations", names l)])
+      | some none => obj [("locations", Json.null)]
+      | some (some l) => obj [("locations", names l)])
   | "files.match" =>
     let n := nm (getStrD j "name")
     let m := match matchRevFile (getBoolD j "sourceless") n with
